@@ -34,6 +34,7 @@ import (
 	"strconv"
 	"strings"
 	"sync"
+	"sync/atomic"
 	"time"
 )
 
@@ -484,7 +485,9 @@ func (req *Request) write(w io.Writer, usingProxy bool, extraHeaders Header) err
 	if err != nil {
 		return err
 	}
-	req.State.BodySize = uint32(n)
+	// Note: the proxy may read BodySize as soon as the response header arrives,
+	// possibly before this write loop is done.
+	atomic.StoreUint32(&req.State.BodySize, uint32(n))
 
 	if bw != nil {
 		return bw.Flush()
